@@ -133,6 +133,15 @@ def main(argv):
         merged[(r[0], r[1])] = {'mutant': r[0], 'check': r[1], 'status': r[2],
                                 'wall_s': round(r[3], 1), 'first': r[4]}
     known = set(n for n, _ in collect())
+    paths = dict(collect())
+    for k in list(merged):
+        if k[0] not in paths:
+            continue
+        checks_now, _ = props_of(k[0], paths[k[0]])
+        if k[1] != '-' and k[1] not in checks_now:
+            del merged[k]          # judged by another check since (meta.json 'checks' changed)
+        elif merged[k]['status'] == 'MISSED' and expected_miss(k[0], paths[k[0]]):
+            merged[k]['status'] = 'EXPECTED-MISS'
     with open(rpath, 'w') as f:
         json.dump([merged[k] for k in sorted(merged) if k[0] in known], f, indent=1)
     return 0 if not missed else 1
